@@ -518,7 +518,9 @@ fn fmt_snippet_window_with_mapping_or_fallback(
         }
     };
     let gutter_width = max_display_row.to_string().len();
-    writeln!(f, "  |")?;
+    // Marker lines get the same gutter width as the numbered lines, so that the caret stays
+    // under the reported column when line numbers have two or more digits.
+    writeln!(f, "{blank:>gutter_width$} |", blank = "")?;
 
     let mut cur_row = window_start_row;
     for line in window_text.split_inclusive('\n') {
@@ -542,9 +544,20 @@ fn fmt_snippet_window_with_mapping_or_fallback(
                 .unwrap_or(0);
             let caret_chars = window_text[line_byte_start..local_start].chars().count();
             if msg.is_empty() {
-                writeln!(f, "  | {space:>caret_chars$}^", space = "")?;
+                writeln!(
+                    f,
+                    "{blank:>gutter_width$} | {space:>caret_chars$}^",
+                    blank = "",
+                    space = ""
+                )?;
             } else {
-                writeln!(f, "  | {space:>caret_chars$}^ {msg}", space = "", msg = msg)?;
+                writeln!(
+                    f,
+                    "{blank:>gutter_width$} | {space:>caret_chars$}^ {msg}",
+                    blank = "",
+                    space = "",
+                    msg = msg
+                )?;
             }
         }
 
@@ -567,14 +580,25 @@ fn fmt_snippet_window_with_mapping_or_fallback(
                 .unwrap_or(0);
             let caret_chars = window_text[line_byte_start..local_start].chars().count();
             if msg.is_empty() {
-                writeln!(f, "  | {space:>caret_chars$}^", space = "")?;
+                writeln!(
+                    f,
+                    "{blank:>gutter_width$} | {space:>caret_chars$}^",
+                    blank = "",
+                    space = ""
+                )?;
             } else {
-                writeln!(f, "  | {space:>caret_chars$}^ {msg}", space = "", msg = msg)?;
+                writeln!(
+                    f,
+                    "{blank:>gutter_width$} | {space:>caret_chars$}^ {msg}",
+                    blank = "",
+                    space = "",
+                    msg = msg
+                )?;
             }
         }
     }
 
-    writeln!(f, "  |")
+    writeln!(f, "{blank:>gutter_width$} |", blank = "")
 }
 
 /// Print a message optionally suffixed with a localized location suffix.
